@@ -427,3 +427,31 @@ func c13IndexSpace(r *core.Report) {
 		}
 	})
 }
+
+// c09MuxEncoded: the gorilla/mux router matches the escaped path (UseEncodedPath); nothing in front
+// of that match may look at the decoded one.
+func c09MuxEncoded(r *core.Report) {
+	p := r.Prog
+	info := p.Pkg("routers/gorillamux").TypesInfo
+	r.RunRule("C09.muxencoded", "what decides whether a route is tried is the path mux matches: NewRouter builds the mux router with UseEncodedPath, so (*gorillamux.Router).FindRoute does not read the decoded Path field of the request URL (only EscapedPath()/RawPath, if anything) — a filter in front of the mux match that counts the slashes of the decoded path skips the route of `/items/{id}` for `/items/a%2Fb`, which mux would match with id=a%2Fb", 1, func() {
+		fd := p.DeclOf("routers/gorillamux", "Router.FindRoute")
+		bad := ""
+		ast.Inspect(fd.Body, func(nd ast.Node) bool {
+			sel, ok := nd.(*ast.SelectorExpr)
+			if !ok || bad != "" {
+				return true
+			}
+			if f := core.FieldSel(info, sel); f != nil && f.Name() == "Path" && f.Pkg() != nil && f.Pkg().Path() == "net/url" {
+				bad = core.ExprStr(sel) + " at " + p.Pos(sel.Pos())
+			}
+			return true
+		})
+		// the router is built for the encoded path
+		enc := len(callsTo(info, p.DeclOf("routers/gorillamux", "NewRouter").Body, "UseEncodedPath")) > 0
+		if !enc {
+			r.Trivial("muxencoded:FindRoute", p.Pos(fd.Pos()), "the mux router is not built with UseEncodedPath: the clause does not apply")
+			return
+		}
+		r.Check(bad == "", "muxencoded:FindRoute", p.Pos(fd.Pos()), "the decoded path is not consulted", "FindRoute reads "+bad+", the decoded path, although mux matches the escaped one: a request whose path parameter carries an escaped slash is judged by another path than the one that is matched")
+	})
+}
